@@ -550,7 +550,8 @@ def ptr_scenarios(shapes, L):
     for sh in shapes:
         for n in range(L + 1):
             lines = [setup(n)]
-            srcs = [("vec", "const", 0), ("vec", "mut", 0), ("slice", "const", 0), ("slicemut", "const", 0), ("slicemut", "mut", 0)]
+            srcs = [("vec", "const", 0), ("vec", "mut", 0), ("slice", "const", 0), ("slicemut", "const", 0), ("slicemut", "mut", 0),
+                    ("tvec", "const", 0), ("tvec", "mut", 0), ("tslice", "const", 0), ("tslicemut", "const", 0), ("tslicemut", "mut", 0)]
             for i in range(n):
                 srcs += [(f"ref:{i}", "const", i), (f"refmut:{i}", "const", i), (f"refmut:{i}", "mut", i)]
             for src, cm, base in srcs:
